@@ -100,13 +100,15 @@ impl<V> Frame<V> {
         );
 
         // create and render scene
-        let scene = Scene::group(vec![
-            Scene::fill(
-                path.clone(),
-                Arc::new(LinColor::from(self.color)),
-                FillRule::default(),
-            ),
-            Scene::stroke(
+        let mut scene = vec![Scene::fill(
+            path.clone(),
+            Arc::new(LinColor::from(self.color)),
+            FillRule::default(),
+        )];
+        // NOTE: stroke of zero width can not be rendered (rasterizer panics), border
+        //       width can be rounded to zero pixels for small cell sizes.
+        if border > 0.0 {
+            scene.push(Scene::stroke(
                 path,
                 Arc::new(LinColor::from(self.border_color)),
                 StrokeStyle {
@@ -114,8 +116,9 @@ impl<V> Frame<V> {
                     line_join: LineJoin::Round,
                     line_cap: LineCap::Round,
                 },
-            ),
-        ]);
+            ));
+        }
+        let scene = Scene::group(scene);
         let image = scene.render(
             &rasterize::ActiveEdgeRasterizer::default(),
             Transform::identity(),
